@@ -381,6 +381,12 @@ pub trait TokenManagerLockUnlockContract:
     ) {
         match result {
             ManagedAsyncCallResult::Ok(token_id_raw) => {
+                // A token recorded by an earlier issuance callback must never be replaced
+                // (two issuances can be in flight, since the token is only recorded here)
+                if !self.token_identifier().is_empty() {
+                    return;
+                }
+
                 let token_identifier = EgldOrEsdtTokenIdentifier::esdt(token_id_raw);
 
                 self.interchain_token_deployed_event(
